@@ -470,6 +470,10 @@ func explore(c *vf.Check, src string, n, kt, t, p int, msg []byte, large bool) {
 			}
 		}
 		frontier = next
+		if c.Expired() {
+			c.Cap(fmt.Sprintf("dss keys=%s n=%d t=%d p=%d: deadline", src, n, t, p))
+			break
+		}
 	}
 	if os.Getenv("VERIF_DEBUG") != "" {
 		fmt.Fprintf(dbgFile(), "c12 job %s n=%d t=%d p=%d large=%v: states=%d transitions=%d %v\n", src, n, t, p, large, states, trans, time.Since(t0))
